@@ -56,6 +56,8 @@ def cases(tier, seed):
         yield {"fam": "realpool", "i": i}
     for i in range(32 if tier == "quick" else 320):
         yield {"fam": "neartie", "i": i}
+    for i in range(24 if tier == "quick" else 240):
+        yield {"fam": "bigvol", "i": i}
 
 
 def setup(ctx):
@@ -155,6 +157,22 @@ def run(case, ctx):
                    "metrics": ["DSC", "IOU", "RVD"]}
             pipeline.check_evaluate(ctx, ID, p2, r2, cfg)
             ctx.nontrivial(gen.arr_key(p2, r2), cfg)
+        return
+    if fam == "bigvol":
+        # sparse volumes beyond 2^18 / 2^20 / 2^22 voxels with instances at both ends (block-wise and per-worker code)
+        pred, refa = gen.big_volume_pair(ctx.seed, i, ctx.tier)
+        r = gen.rng(ctx.seed, "c01big", i)
+        ctx.count("f:family.big_sparse_volume")
+        it = ["UNMATCHED_INSTANCE", "SEMANTIC", "MATCHED_INSTANCE"][i % 3]
+        if it == "SEMANTIC":
+            pred, refa = gen.to_semantic(pred, r), gen.to_semantic(refa, r)
+        elif it == "MATCHED_INSTANCE":
+            pred = gen.make_matched(pred, refa, r)
+        cfg = {"input": it, "backend": [None, "cc3d", "scipy"][(i // 3) % 3] if it == "SEMANTIC" else None,
+               "matcher": None if it == "MATCHED_INSTANCE" else {"kind": "naive", "metric": ["IOU", "DSC"][i % 2], "thr": [0.3, 0.5][(i // 2) % 2], "m2o": bool(i % 5 == 4)},
+               "metrics": ["DSC", "IOU", "RVD"] + (["ASSD"] if pred.size < 2**21 else []), "global": ["DSC", "IOU"]}
+        pipeline.check_evaluate(ctx, ID, pred, refa, cfg, use_real_pool=(i % 8 == 7))
+        ctx.nontrivial(gen.arr_key(pred, refa), cfg)
         return
     if fam == "realpool":
         pred, refa, f = gen.random_pair(ctx.seed, 100000 + i, dtype=np.uint8, max_inst=3)
